@@ -203,6 +203,19 @@ func runFile(x *ctx, reader string, L int, rf ref, m fmut) *eng.Violation {
 	c := node.Cid()
 	must(fs.Put(bg, &posinfo.FilestoreNode{Node: node, PosInfo: &posinfo.PosInfo{FullPath: path, Offset: uint64(rf.off)}}))
 
+	// an untouched bystander file with its own reference: must stay ok in every listing
+	other := filepath.Join(root, "other.bin")
+	ocontent := pattern(9, 3)
+	must(os.WriteFile(other, ocontent, 0o644))
+	onode, err := dag.NewRawNodeWPrefix(ocontent[2:7], refForms["sha256"])
+	must(err)
+	bystander := onode.Cid()
+	if bystander.Hash().B58String() == c.Hash().B58String() {
+		bystander = cid.Undef
+	} else {
+		must(fs.Put(bg, &posinfo.FilestoreNode{Node: onode, PosInfo: &posinfo.PosInfo{FullPath: other, Offset: 2}}))
+	}
+
 	feat := []string{"part", "filestore-file", "reader", reader, "mutation", m.kind, "empty_region", fmt.Sprint(rf.size == 0)}
 	// control: before the mutation the reference must be served
 	if b, err := fs.Get(bg, c); err != nil || !bytes.Equal(b.RawData(), orig) {
@@ -259,23 +272,19 @@ func runFile(x *ctx, reader string, L int, rf ref, m fmut) *eng.Violation {
 	if v := check("FileManager.Get", d2, err2); v != nil {
 		return v
 	}
-	lr := filestore.Verify(bg, fs, c)
-	okStatus := lr.Status == filestore.StatusOk
-	corruptStatus := lr.Status == filestore.StatusFileError || lr.Status == filestore.StatusFileNotFound || lr.Status == filestore.StatusFileChanged
-	if okStatus && !intact {
-		return eng.V("verify-ok-on-corrupt-reference", "Verify", fmt.Sprintf("%s: Verify status ok", x.id), feat...)
-	}
-	if !okStatus && !corruptStatus {
-		return eng.V("error-not-corrupt-reference", "Verify", fmt.Sprintf("%s: Verify status %v (%s)", x.id, lr.Status, lr.ErrorMsg), feat...)
-	}
-	if !okStatus && m.kind == "none" {
-		return eng.V("intact-reference-rejected", "Verify", fmt.Sprintf("%s: Verify status %v on an unmodified file", x.id, lr.Status), feat...)
+	j := &statusJudge{x: x, feat: feat, intact: intact, control: m.kind == "none"}
+	v, lobs := j.judgeAll(fs, c, bystander)
+	if v != nil {
+		return v
 	}
 	cls := "served"
 	if err1 != nil {
 		var cre *filestore.CorruptReferenceError
 		errors.As(err1, &cre)
 		cls = "corrupt-" + cre.Code.String()
+	}
+	if lobs != "List=ok,ListAll(fileOrder=false)=ok,ListAll(fileOrder=true)=ok" {
+		cls += "/" + lobs
 	}
 	x.outcome(fmt.Sprintf("file/%s/intact=%v", cls, intact))
 	return nil
